@@ -1,5 +1,6 @@
 import Octo.Lemmas.FilesCsv
 import Octo.Lemmas.FilesJson
+import Octo.Lemmas.FilesJsonInfer
 /-!
 # C24 — File datasources produce values that match their inferred schema
 
@@ -229,6 +230,60 @@ theorem json_error_iff_unrepresentable (schema : Fields) (ks : List Name) (vs : 
     exact ⟨fun _ => ⟨f, hf, by simpa using hfit⟩, fun _ => rfl⟩
 
 theorem json_ok_iff_fits (t : Ty) (oj : Option J) : (getValue t oj).2 = fits t oj := getValue_ok_iff_fits t oj
+
+/-- **JSON, `TypeSum`.**  The sum of two JSON-shaped types accepts — and has a place for every key of — every
+    document value that either operand accepts.  This covers the merge of two object types with different key sets,
+    which is *not* an upper bound with respect to `Is` (C10) but does accept both shapes of object. -/
+theorem json_typesum_accepts (a b c : Ty) (ja : jok a = true) (jb : jok b = true) (h : Ty.typeSum a b = some c) :
+    jok c = true ∧ (∀ oj, acc a oj = true → acc c oj = true) ∧ (∀ oj, acc b oj = true → acc c oj = true) :=
+  acc_typeSum a b c ja jb h
+
+/-- `getOctoSQLType` of a document value is a type that accepts the value -/
+theorem json_type_accepts_value (j : J) (t : Ty) (hw : wfJ j = true) (h : j.getType = some t) :
+    jok t = true ∧ acc t (some j) = true := getType_acc' j t hw h
+
+/-- **JSON, rows within the preview.**  A file of at most 100 rows (objects with distinct keys) is read without an
+    error: the inferred schema accepts every previewed row — nested objects with varying key sets, arrays of mixed
+    elements, fields that appear or disappear from row to row included. -/
+theorem json_preview_no_error (rows : List J) (hlen : rows.length ≤ jsonPreviewRows)
+    (hw : ∀ r ∈ rows, wfJ r = true) (schema : Fields) : jsonRun rows ≠ .errRun schema := by
+  unfold jsonRun
+  cases hc : jsonCreate rows with
+  | error => simp
+  | fuel => simp
+  | ok schema' =>
+    simp only
+    have hall := jsonCreate_accepts rows schema' hlen hw hc
+    have : ∀ (l : List J), (∀ r ∈ l, (rowValues schema' r).isSome = true) → (allSome (l.map (rowValues schema'))).isSome = true := by
+      intro l
+      induction l with
+      | nil => intro _; rfl
+      | cons r rs ih =>
+        intro h
+        have h1 := h r (by simp)
+        have h2 := ih (fun r' hr' => h r' (by simp [hr']))
+        simp only [List.map_cons]
+        cases hr : rowValues schema' r with
+        | none => rw [hr] at h1; cases h1
+        | some v =>
+          simp only [allSome]
+          cases hrs : allSome (rs.map (rowValues schema')) with
+          | none => rw [hrs] at h2; cases h2
+          | some vs => rfl
+    have := this rows hall
+    cases hx : allSome (rows.map (rowValues schema')) with
+    | none => rw [hx] at this; cases this
+    | some recs => simp
+
+def demoRows : List J :=
+  [.obj [[99]] [.obj [[120]] [.num 0x3FF0000000000000]],
+   .obj [[99]] [.obj [[121]] [.null]],
+   .obj [[99], [100]] [.str [115] none, .arr [.num 0, .null]],
+   .obj [] []]
+/-- non-vacuity: object types with different key sets, a union with a string, a late key, an empty row -/
+example : (∀ r ∈ demoRows, wfJ r = true) ∧
+    (match jsonRun demoRows with | .ok schema recs => schema.length == 2 && recs.length == 4 | _ => false) = true := by
+  decide
 
 /-- the code before the repair ignored `ok`: a String in a Float column silently became NULL -/
 theorem json_raw_refuted :
